@@ -39,15 +39,19 @@ class UnwindBound(Exception):
 
 
 class Region:
-    __slots__ = ('size', 'cells', 'name', 'ro')
+    __slots__ = ('size', 'cells', 'name', 'ro', 'arr')
+    # arr: None for ordinary (cell-mapped) regions; a z3 Array(BitVec64 -> BitVec8) for array-backed regions, whose
+    # pointers may carry symbolic byte offsets (Ptr.o is then a 64-bit term); every access records the obligation
+    # offset + n <= size
 
-    def __init__(s, size, name, cells=None):
+    def __init__(s, size, name, cells=None, arr=None):
         s.size = size
         s.cells = cells if cells is not None else {}   # off -> (nbytes, value)
         s.name = name
+        s.arr = arr
 
     def copy(s):
-        return Region(s.size, s.name, dict(s.cells))
+        return Region(s.size, s.name, dict(s.cells), s.arr)
 
 
 def mk_concat_bytes(bs):
@@ -150,6 +154,7 @@ class Exec:
             s.fbyid[i + 1] = name
         s.ipd = {}
         s.ginit = {}
+        s.access_log = []        # accesses to array-backed regions: (kind, region name, pc, offset term, nbytes)
         s.div_oracle = None      # optional: fn(ex, st, op, bits, A, B) -> term or None (sound rewrites only; see checks/c16.py)
         s.div_zero_check = False
         s.feas_timeout_ms = 20000
@@ -222,6 +227,12 @@ class Exec:
         if p.sym:
             return s.load_sym(st, p, n)
         reg = st.mem[p.r]
+        if reg.arr is not None:
+            off = bv(p.o, 64)
+            s.oblig.append((list(st.pc), z3.And(z3.ULE(off, reg.size - n), z3.ULE(off + n, reg.size)), 'load of %d byte(s) inside %s' % (n, reg.name)))
+            s.access_log.append(('L', reg.name, list(st.pc), off, n))
+            bs = [z3.Select(reg.arr, off + i) for i in range(n)]
+            return bs[0] if n == 1 else z3.Concat(*reversed(bs))
         if reg.size is not None and not (0 <= p.o and p.o + n <= reg.size):
             raise Abort('OOB load %s+%d size %s (%s)' % (reg.name, p.o, reg.size, desc))
         c = reg.cells.get(p.o)
@@ -263,6 +274,18 @@ class Exec:
         if p.sym:
             return s.store_sym(st, p, n, v)
         reg = st.wregion(p.r)
+        if reg.arr is not None:
+            off = bv(p.o, 64)
+            s.oblig.append((list(st.pc), z3.And(z3.ULE(off, reg.size - n), z3.ULE(off + n, reg.size)), 'store of %d byte(s) inside %s' % (n, reg.name)))
+            s.access_log.append(('S', reg.name, list(st.pc), off, n))
+            if isinstance(v, Ptr):
+                raise Abort('pointer stored into array-backed region')
+            V = bv(v, 8 * n)
+            arr = reg.arr
+            for i in range(n):
+                arr = z3.Store(arr, off + i, z3.Extract(8 * i + 7, 8 * i, V))
+            reg.arr = arr
+            return
         if reg.size is not None and not (0 <= p.o and p.o + n <= reg.size):
             raise Abort('OOB store %s+%d size %s' % (reg.name, p.o, reg.size))
         c = reg.cells.get(p.o)
@@ -360,6 +383,32 @@ class Exec:
             raise Abort('gep on non-pointer %r' % (base,))
         res = []
         for g0, q in base.alts():
+            if q.r != 'F' and q.r in st.mem and st.mem[q.r].arr is not None:
+                # array-backed region: plain (possibly symbolic) byte-offset arithmetic in 64 bits
+                off = q.o
+                t = bt
+                first = True
+                for it, iv in idx:
+                    if first:
+                        es = s.m.size(t)
+                        first = False
+                    elif t.k == 'struct':
+                        off = off + s.m.offsets(t)[iv] if is_c(off) else off + s.m.offsets(t)[iv]
+                        t = t.elems[iv]
+                        continue
+                    elif t.k == 'array':
+                        es = s.m.size(t.elem)
+                        t = t.elem
+                    else:
+                        raise Abort('gep into ' + t.k)
+                    if is_c(iv) and is_c(off):
+                        off = off + sgn(iv, it.bits) * es
+                    else:
+                        ivs = bv(iv, it.bits)
+                        ivs = ivs if it.bits == 64 else z3.SignExt(64 - it.bits, ivs)
+                        off = bv(off, 64) + ivs * es
+                res.append((g0, Ptr(q.r, off)))
+                continue
             cur = [(g0, q.o)]
             t = bt
             first = True
@@ -657,6 +706,8 @@ class Exec:
             for x in regs:
                 offs |= set(x.cells)
             nreg = Region(regs[0].size, regs[0].name)
+            if regs[0].arr is not None:
+                nreg.arr = s.ite_merge(guards, [x.arr for x in regs])
             for o in offs:
                 cs = [x.cells.get(o) for x in regs]
                 if all(c is not None and c[0] == cs[0][0] for c in cs):
